@@ -290,3 +290,7 @@ package middleware
 //@ func NewMessageHasherAdler32
 //@   nopanic
 //@   ensures result != nil && closurevar(result, "middleware.NewMessageHasherAdler32$1", "readLimit") == (readLimit < 64 ? 64 : readLimit) [the-hasher-reads-up-to-the-given-limit-but-at-least-64-bytes]
+
+//@ func PoisonQueue$1
+//@   nopanic
+//@   ensures result [without-a-filter-every-error-qualifies-for-the-poison-queue]
